@@ -550,12 +550,28 @@ mod exec {
         }
     }
 
+    // Like WriteAdapter below, the read adapters must close their stream
+    // on drop: the adapter is the only owner of the pipe's read end, and a
+    // child blocked on writing to a pipe that nobody reads any more would
+    // never exit, deadlocking the wait in Popen::drop().
+    impl Drop for ReadOutAdapter {
+        fn drop(&mut self) {
+            self.0.stdout.take();
+        }
+    }
+
     #[derive(Debug)]
     struct ReadErrAdapter(Popen);
 
     impl Read for ReadErrAdapter {
         fn read(&mut self, buf: &mut [u8]) -> io::Result<usize> {
             self.0.stderr.as_mut().unwrap().read(buf)
+        }
+    }
+
+    impl Drop for ReadErrAdapter {
+        fn drop(&mut self) {
+            self.0.stderr.take();
         }
     }
 
@@ -1125,6 +1141,14 @@ mod pipeline {
         fn read(&mut self, buf: &mut [u8]) -> io::Result<usize> {
             let last = self.0.last_mut().unwrap();
             last.stdout.as_mut().unwrap().read(buf)
+        }
+    }
+
+    impl Drop for ReadPipelineAdapter {
+        // the same rationale as Drop for ReadOutAdapter
+        fn drop(&mut self) {
+            let last = self.0.last_mut().unwrap();
+            last.stdout.take();
         }
     }
 
